@@ -6,6 +6,7 @@
 #include <plibsys.h>
 #include <ctype.h>
 #include "vtrace.h"
+#include "galloc.h"
 
 static PSocketAddress *cur;
 static int unhex (const char *h, unsigned char *out, int max) {
@@ -24,6 +25,7 @@ int main (int argc, char **argv) {
 	in = fopen (argv[1], "r"); if (!in) return 2;
 	vt_open (argv[2]);
 	p_libsys_init (); p_libsys_shutdown (); p_libsys_init ();      /* the library is used after a shutdown / re-initialisation cycle */
+	if (!ga_install ()) return 2;      /* fresh memory is garbage, released memory is overwritten (galloc.h) */
 	while (fgets (line, sizeof line, in)) {
 		a1[0] = a2[0] = 0;
 		if (sscanf (line, "%31s %4199s %4199s", op, a1, a2) < 1) continue;
@@ -88,6 +90,7 @@ int main (int argc, char **argv) {
 		else vt_die ("bad op");
 	}
 	if (cur) p_socket_address_free (cur);
+	p_mem_restore_vtable ();
 	p_libsys_shutdown ();
 	vt_close ();
 	return 0;
